@@ -164,6 +164,7 @@ class Scn:
     loss_default: float = 1.0
     ops: list = field(default_factory=list)         # ("C", n) | ("K",) | ("R",) | ("SS", lineup) | ("SCH", lineup, "rr")
     loss_fn: str | None = None                      # name in LOSS_FNS (then the table for the model is derived from the run)
+    keep_folder: bool = False
     agent: str = "scripted"                         # "scripted" | "eps" (MABEpsilonGreedy)
     agent_opts: tuple = (-1.0, 0.1, 0.0)
     bounds: tuple = ((0.0,), (100.0,))
@@ -375,7 +376,7 @@ def run_real(scn: Scn, model=None):
     finally:
         RLScheduler.get_next_sampler = orig_get
         Calibrator._set_samplers_seeds = orig_seed
-        if folder and not scn.__dict__.get("keep_folder"):
+        if folder and not scn.keep_folder:
             shutil.rmtree(folder, ignore_errors=True)
     return lines, info
 
